@@ -194,6 +194,7 @@ type FakeBlockUtils struct {
 	Calls    []SpiCall
 	Gate     func(ctx context.Context, kind string) // optional: blocks until released / ctx done
 	CancelFn func(kind string, h uint64)            // optional: called during the SPI call (to cancel contexts "meanwhile")
+	NilOnCancel bool                                // RequestNewBlockProposal returns (nil, nil) when its context was cancelled during the call
 }
 
 func (u *FakeBlockUtils) RequestNewBlockProposal(ctx context.Context, blockHeight primitives.BlockHeight, memberId primitives.MemberId, prevBlock interfaces.Block) (interfaces.Block, primitives.BlockHash) {
@@ -202,6 +203,10 @@ func (u *FakeBlockUtils) RequestNewBlockProposal(ctx context.Context, blockHeigh
 	}
 	if u.CancelFn != nil {
 		u.CancelFn("request", uint64(blockHeight))
+	}
+	if u.NilOnCancel && ctx.Err() != nil {
+		u.Calls = append(u.Calls, SpiCall{Kind: "request", Height: uint64(blockHeight), Block: "-", CtxDone: true})
+		return nil, nil
 	}
 	*u.nextId++
 	b := &FakeBlock{H: uint64(blockHeight), Id: *u.nextId}
